@@ -231,6 +231,8 @@ def _render(sd, ind):
     if k == "scalar":
         if sd["v"] == ["n", ""] and tag:
             return [tag]          # value-less tagged node (e.g. `a: !del`)
+        if sd["v"] == ["n", ""] and _NULL_STYLE[0] == "empty" and ind > 0:
+            return [""]           # an untagged null written as an EMPTY entry (`a:` / a bare `-`): the same YAML value as `~`
         if sd["v"][0] == "s" and _LOOKS_TYPED.match(sd["v"][1]) and (len(sd["v"][1]) + len(tag)) % 2 == 0:
             # a string that looks like a number / bool / null: every other one is written as a BLOCK scalar
             # (still a string for YAML, whatever tag is in front of it)
@@ -250,9 +252,19 @@ def _render(sd, ind):
     raise ValueError(k)
 
 
+_NULL_STYLE = ["~"]
+
+
 def render_doc(sd):
-    """A whole document.  A block mapping/sequence at top level starts on its own line."""
-    lines = _render(sd, 0)
+    """A whole document.  A block mapping/sequence at top level starts on its own line.
+    Untagged nulls are written as `~` in one half of the documents and as empty entries in the other half
+    (decided by the content of the document, so that a document always has the same text)."""
+    import hashlib
+    _NULL_STYLE[0] = "empty" if hashlib.sha1(json.dumps(sd, sort_keys=True).encode()).digest()[0] % 2 else "~"
+    try:
+        lines = _render(sd, 0)
+    finally:
+        _NULL_STYLE[0] = "~"
     if lines[0] == "":
         lines = lines[1:]
     return "\n".join(lines) + "\n"
